@@ -32,6 +32,34 @@ func NewRetryHandler(discoveryService ports.DiscoveryService, logger logger.Styl
 	}
 }
 
+// responseTracker notes whether any part of a response has been handed to the client.
+// Once that has happened the request can no longer be replayed onto another endpoint.
+type responseTracker struct {
+	http.ResponseWriter
+	started bool
+}
+
+func (t *responseTracker) WriteHeader(statusCode int) {
+	t.started = true
+	t.ResponseWriter.WriteHeader(statusCode)
+}
+
+func (t *responseTracker) Write(p []byte) (int, error) {
+	t.started = true
+	return t.ResponseWriter.Write(p)
+}
+
+func (t *responseTracker) Flush() {
+	if f, ok := t.ResponseWriter.(http.Flusher); ok {
+		f.Flush()
+	}
+}
+
+// Unwrap lets http.ResponseController reach the underlying writer
+func (t *responseTracker) Unwrap() http.ResponseWriter {
+	return t.ResponseWriter
+}
+
 // ProxyFunc defines the signature for endpoint proxy implementations
 type ProxyFunc func(ctx context.Context, w http.ResponseWriter, r *http.Request, endpoint *domain.Endpoint, stats *ports.RequestStats) error
 
@@ -62,6 +90,7 @@ func (h *RetryHandler) ExecuteWithRetry(
 	var lastErr error
 	maxRetries := len(endpoints)
 	attemptCount := 0
+	tracker := &responseTracker{ResponseWriter: w}
 
 	for attemptCount < maxRetries && len(availableEndpoints) > 0 {
 		if err := h.checkContextCancellation(ctx); err != nil {
@@ -76,7 +105,7 @@ func (h *RetryHandler) ExecuteWithRetry(
 		}
 
 		attemptCount++
-		lastErr = h.executeProxyAttempt(ctx, w, r, endpoint, selector, stats, proxyFunc)
+		lastErr = h.executeProxyAttempt(ctx, tracker, r, endpoint, selector, stats, proxyFunc)
 
 		if lastErr == nil {
 			return nil
@@ -84,6 +113,14 @@ func (h *RetryHandler) ExecuteWithRetry(
 
 		if !IsConnectionError(lastErr) {
 			// Non-connection error warrants immediate failure
+			return lastErr
+		}
+
+		if tracker.started {
+			// The client has already been sent part of this attempt's response, so another
+			// endpoint's answer would be spliced onto it. Take the endpoint out of rotation
+			// but do not re-dispatch.
+			h.markEndpointUnhealthy(ctx, endpoint)
 			return lastErr
 		}
 
